@@ -46,7 +46,8 @@ def base_files(level):
     spec = common.spec_from(
         {"level": level,
          # the level-1.1 product is ScanSAR-like: its image files differ only in the scan suffix
-         "images": [dict({"lines": N_LINES, "pixels": 3}, **({"pol": "HH", "scan": "B1"} if level == "1.1" else {})),
+         # (the flag / code columns of the first image change from line to line)
+         "images": [dict({"lines": N_LINES, "pixels": 3, "vary_constants": True}, **({"pol": "HH", "scan": "B1"} if level == "1.1" else {})),
                     dict({"lines": N_LINES - 1, "pixels": 2}, **({"pol": "HH", "scan": "B2"} if level == "1.1" else {}))],
          "vseed": 100 + LEVELS.index(level),
          "leader": {"map_projection": level != "1.1"}}
